@@ -255,8 +255,9 @@ def gen_illformed(tier, R):
     """C08: exhaustive ill-formed trees to depth 2 over the full operator enum in unary, binary and ternary position x literal
     kinds (NaN, inf, array literals) x odd names x argument counts; deep random trees"""
     lits = [f"(lit {v})" for v in (num(NAN), num(INF), num(-0.0), num(1.0), s(''), s('a'), b(True), arr(), arr(num(NAN), arr(s('x'))))]
-    names = ['', 'and', ' ', 'É', '😀', 'k', 'echo', 'nofn', 'if_then', "a'b"]
-    leaves = lits + [f"(var {s(n)})" for n in names[:6]] + [f"(call {s(n)} " + " ".join(lits[:c]) + ")" for n in names for c in range(0, 5)]
+    names = ['', 'and', ' ', 'É', '😀', 'k', 'echo', 'nofn', 'if_then', "a'b", 'éA', '€X', '日本B', 'xäÖ', 'gröSSe', 'İ', 'ǅz', 'ſ', 'MAX', 'ÿŸ']
+    leaves = lits + [f"(var {s(n)})" for n in names[:6] + names[10:]] + [f"(call {s(n)} " + " ".join(lits[:c]) + ")" for n in names[:10] for c in range(0, 5)] + \
+             [f"(call {s(n)} " + " ".join(lits[:c]) + ")" for n in names[10:] for c in (0, 2)]
     out = []
     envs = env([('k', num(1.0)), ('', s('empty-name')), ('É', b(True))], OPT_FNS_S)
     L1 = leaves[::3]
